@@ -236,10 +236,15 @@ NONTEXT = [5, None, b'in1', ('in1', 'in2')]
 MIXED = [['in1', 5], [None, 'in2'], ['in1', ['in2']], [b'in1', 'in2']]
 
 
-def build_case(c, fault, infer_fault):
+ARITH_INPUT = {('python', 'ZeroDivisionError'): '1/(x-x)', ('python', 'OverflowError'): '2^9999',
+               ('numpy', 'ZeroDivisionError'): '[1,2]/(x-x)', ('numpy', 'OverflowError'): '[1e308,1]*10',
+               ('numpy', 'ValueError'): '[0,0]/(x-x)'}
+
+
+def build_case(c, fault, infer_fault, origin=None):
     """abstract case -> (grader, expect, input object, kwargs, submitted texts, input text of the generic message)
     fault: exception instance raised by the grading step (or None: it returns)"""
-    from mitxgraders import ListGrader, FormulaGrader, SumGrader, LinearCredit
+    from mitxgraders import ListGrader, FormulaGrader, MatrixGrader, SumGrader, LinearCredit
     fx = fixtures()
     Table = fx['TableGrader']
     gk, n, form, v = c['gk'], c['n'], c['form'], c['v']
@@ -294,8 +299,8 @@ def build_case(c, fault, infer_fault):
             g = SumGrader(answers={'lower': '1', 'upper': '3', 'summand': 'n', 'summation_variable': 'n'},
                           input_positions={'summand': 1}, user_functions={'f': f}, **cfg)
     elif gk == 'formulaop':
-        names = ['x+1' if fault is None else '1/(x-x)' if isinstance(fault, ZeroDivisionError) else '2^9999']
-        g = FormulaGrader(answers='x+1', variables=['x'], **cfg)
+        names = ['x+1' if fault is None else ARITH_INPUT[(origin.get('src', 'python'), origin['cls'])]]
+        g = MatrixGrader(answers='x+1', variables=['x'], max_array_dim=1, **cfg)
     else:
         raise ValueError(gk)
     if infer_fault is not None:
@@ -418,7 +423,7 @@ def replay_states(states, extra):
             else:
                 fault = ex
         try:
-            g, expect, inp, kw, names = build_case(c, fault, infer_fault)
+            g, expect, inp, kw, names = build_case(c, fault, infer_fault, origin)
         except Exception as e:  # noqa -- the instrument could not be built: machinery, reported by run()
             drifts.append('instrument for %s could not be built: %s %s' % (c['gk'], type(e).__name__, e))
             continue
@@ -433,7 +438,8 @@ def replay_states(states, extra):
             if len(bad) < 60:
                 bad.append({'class': cls, 'kind': c['gk'], 'form': c['form'], 'debug': c['debug'], 'n': c['n'],
                             'variant': c['v'], 'expect': c['expect'], 'answers': c['answers'], 'credit': c['credit'],
-                            'raised_inside': src.get('cls', 'none'), 'message': injected, 'at': trail[-1],
+                            'raised_inside': src.get('cls', 'none'), 'source': src.get('src', ''),
+                            'message': injected, 'at': trail[-1],
                             'model_escape': st['esc'].get('cls', 'return'), 'observed': describe(obs), 'what': text})
             else:
                 bad.append(None)
@@ -979,7 +985,8 @@ def replay(ctx, rec):
         c = {'gk': sig['kind'], 'form': sig['form'], 'debug': sig['debug'], 'n': sig['n'], 'v': sig['variant'],
              'expect': sig['expect'], 'answers': sig['answers'], 'credit': sig['credit']}
         ex = make_exc(sig['raised_inside'], sig['message']) if sig['raised_inside'] != 'none' and sig['at'] != 'post' else None
-        g, expect, inp, kw, _ = build_case(c, None if sig['at'] == 'infer' else ex, ex if sig['at'] == 'infer' else None)
+        g, expect, inp, kw, _ = build_case(c, None if sig['at'] == 'infer' else ex, ex if sig['at'] == 'infer' else None,
+                                           {'cls': sig['raised_inside'], 'src': sig.get('source', 'python')})
         req = REQ[sig['kind']]
         res = spy_call(g, expect, inp, 120, **kw)
         inferring = expect is not None
